@@ -8,6 +8,20 @@ VERIF = os.path.dirname(os.path.dirname(os.path.abspath(__file__)))
 ALL = ["C%02d" % i for i in range(1, 21)]
 
 CHECKS = {
+    "C02": dict(
+        text="Coq theorems over every environment, type and value: round trip of the TBinary encoding directed by the declared type; exact "
+             "skipping of unknown fields; the field rules of the generated Write (required and default always, optional iff set, a union "
+             "exactly one, declared ids and wire types); rejection of a missing required field and of a multi-field union by Read; "
+             "Read (Write v) = v for every well-formed Go value of every declared struct, union, exception, args or result type. The "
+             "generator's typedef resolution is proved correct under a stated side condition and refuted in general (known finding). On every "
+             "run generated Write and Read of seeded multi-file programs (generated-code lab: the real frugal compiler, output compiled "
+             "against the runtime, reflection driver) are replayed on the same Coq definitions: binary compared byte- and value-exact; "
+             "compact and JSON through a schema-less reader/writer.",
+        note="Trusted: Coq kernel + vm_compute; the TBinary model is the specification of Apache Thrift's binary protocol; TCompact/TJSON exercised only "
+             "differentially; map keys on the wire assumed distinct, strings valid UTF-8; harness, reflection driver and Python oracle are test equipment. "
+             "Three generator compile failures are known findings.",
+        technique="executable Gallina codec model, nested-induction proofs, trace-validation judge, generated-code lab",
+        design="5/C02"),
     "C04": dict(
         text="Coq theorems over Model/Headers.v (a byte-level transcription of protocol.go's v0 codec and of the Python codec): "
              "layout as documented, stream and frame round trips for every header list and payload with total size < 2^31, "
